@@ -56,6 +56,9 @@ DoEdit(e) ==
      \/ e = "empty_query_part"  /\ wire.ctype = "mixed" /\ wire' = [wire EXCEPT !.parts[1].query = <<>>]
      \/ e = "override_with_url_query" /\ wire' = [wire EXCEPT !.urlq = <<"a">>]
      \/ e = "unknown_top_type"  /\ wire' = [wire EXCEPT !.ctype = "other"]
+     \* a body-less tunnelled request (form) re-framed as multipart carrying only the query part
+     \/ e = "reframe_as_multipart" /\ wire.ctype = "form" /\
+          wire' = [wire EXCEPT !.ctype = "mixed", !.raw = <<>>, !.parts = << [ctype |-> "form", query |-> wire.raw, json |-> NoBody] >>]
   /\ edit' = e
   /\ UNCHANGED <<orig, th, pc, seen, rejected>>
 
